@@ -21,6 +21,12 @@ pub const INJECT: &[(&str, &[u8])] = &[
     ("backslash", &[0x5C]),
     ("nul", &[0x00]),
     ("tab", &[0x09]),
+    // code points that Unicode normalisation rewrites to a longer / shorter form, a jamo pair, a non-ASCII space, DEL
+    ("nfc-growing-u0958", &[0xE0, 0xA5, 0x98]),
+    ("nfc-shrinking-u212b", &[0xE2, 0x84, 0xAB]),
+    ("hangul-jamo-pair", &[0xE1, 0x84, 0x80, 0xE1, 0x85, 0xA1]),
+    ("ideographic-space", &[0xE3, 0x80, 0x80]),
+    ("del", &[0x7F]),
 ];
 
 fn set_u16(v: &mut [u8], off: usize, x: usize) {
